@@ -31,12 +31,12 @@ def longBody (r : List Tok) : Option (List Tok × Option (List Tok)) :=
     else none
 
 theorem withRecover_fst {β : Type} (f : P α (Option β)) (s : BP α) : (withRecover f s).1 = (f s).1 := by
-  rw [withRecover_run]; split <;> rfl
+  rw [withRecover_run_ext]; split <;> rfl
 
 theorem withRecover_cur_of_none {β : Type} (f : P α (Option β)) (s : BP α)
     (h : (withRecover f s).1 = none) : (withRecover f s).2.cur = s.cur := by
   rw [withRecover_fst] at h
-  rw [withRecover_run]
+  rw [withRecover_run_ext]
   simp [h]
 
 theorem consumeK_run (k : TK) (s : BP α) : consumeK k s =
@@ -641,7 +641,7 @@ def parseBlockNoModes (oldStyle : Bool) : P α Unit := do
 
 theorem withRecover_congr {β : Type} {f g : P α (Option β)} {s : BP α} (h : f s = g s) :
     withRecover f s = withRecover g s := by
-  rw [withRecover_run, withRecover_run, h]
+  rw [withRecover_run_ext, withRecover_run_ext, h]
 
 /-- with MODES off `parse_block` keeps or drops a `>>` entry (bracketed key or not) only according
     to `oldStyle` -/
